@@ -14,7 +14,7 @@ from ckl.values import Args
 
 from harness import tokens as T
 from harness.common import run_ckl, vint, vstr, vbool, vdec, vlist, vset, vmap, interp, guard, \
-    raise_site
+    raise_site, b_and
 from symex.shims import sym_isinstance
 
 FUNCTIONS = ["ckl.parser.parse_or_expr .. parse_unary_expr, parse_pred_expr", "ckl.nodes.NodeAnd/NodeOr/NodeNot/NodeIn",
@@ -80,6 +80,13 @@ def cells(tier, seed):
             for kb in ("int", "dec", "decint", "null"):
                 if (ka, kb) != ("int", "int"):
                     out.append({"k": "kinds", "op": op, "ka": ka, "kb": kb})
+    # comparisons and comparison chains over int / decimal operands (1 versus 1.0, 2 versus 2.5)
+    for o1 in CMP:
+        for kinds in (("int", "dec"), ("dec", "int"), ("dec", "dec"), ("decint", "int"), ("int", "decint")):
+            out.append({"k": "cmpkinds", "ops": [o1], "kinds": list(kinds)})
+        for o2 in CMP:
+            for kinds in (("int", "int", "dec"), ("int", "dec", "int"), ("dec", "int", "int")):
+                out.append({"k": "cmpkinds", "ops": [o1, o2], "kinds": list(kinds)})
     words = sorted(set(a[1] for a in T.alphabet() if a[0] == "identifier")
                    | {"date with hour", "numerical min_len 2", "numerical exact_len 2",
                       "alphanumerical max_len 3", "in [1, 'abc']", "in 'xabcx'"})
@@ -349,6 +356,8 @@ def run(ctx, cell):
         return run_exact(ctx, cell)
     if k == "kinds":
         return run_kinds(ctx, cell)
+    if k == "cmpkinds":
+        return run_cmpkinds(ctx, cell)
     if k == "ispred":
         return run_ispred(ctx, cell)
     raise AssertionError(k)
@@ -581,6 +590,48 @@ def run_kinds(ctx, cell):
     if o2.kind == "ok":
         ctx.check(str(o2.value) == "['decimal', 'decimal', TRUE]", key + ":result-kind-not-decimal", lambda: str(o2.value))
     return [out.kind, out.value.type()]
+
+
+def run_cmpkinds(ctx, cell):
+    """numeric comparison is by value across int and decimal; a chain is the conjunction of its links"""
+    from symex.shims import sym_float
+    ctx.reach("value")
+    ops, kinds = cell["ops"], cell["kinds"]
+    key = "C02:cmpkinds:%s:%s" % (" ".join(ops), "-".join(kinds))
+    names = ["a", "b", "c"][:len(kinds)]
+    env, twice = {}, {}
+    for n, kd in zip(names, kinds):
+        if kd == "int":
+            x = ctx.int(n, -3, 3)
+            env[n], twice[n] = vint(x), 2 * x
+        elif kd == "decint":
+            i = ctx.choice(n, 3)
+            env[n], twice[n] = run_ckl(("decimal(1)", "round(2)", "decimal(-3)")[i]).value, (2, 4, -6)[i]
+        elif ctx.choice(n + ".frac", 2):
+            i = ctx.choice(n, 3)
+            env[n], twice[n] = vdec((2.5, -1.5, 0.5)[i]), (5, -3, 1)[i]
+        else:
+            x = ctx.int(n, -3, 3)
+            env[n], twice[n] = vdec(sym_float(x)), 2 * x
+    text = " ".join(x for pair in zip(names, ops + [""]) for x in pair).strip()
+
+    def link(op, x, y):
+        return {"==": x == y, "!=": x != y, "<>": x != y, "<": x < y, "<=": x <= y, ">": x > y, ">=": x >= y}[op]
+    exp = link(ops[0], twice[names[0]], twice[names[1]])
+    if len(ops) == 2:
+        exp = b_and(exp, link(ops[1], twice[names[1]], twice[names[2]]))
+    fn = {"==": "equals", "!=": "not_equals", "<>": "not_equals", "<": "less", "<=": "less_equals", ">": "greater",
+          ">=": "greater_equals"}[ops[0]]
+    out = run_ckl("[%s, %s(a, b)]" % (text, fn), dict(env))
+    detail = lambda: {"text": text, "operands": {n: ctx.plain(env[n]) for n in names}, "got": ctx.plain(out)}
+    if out.kind != "ok":
+        ctx.fail("%s:%s:%s" % (key, out.kind, out.hostname() or "runtime-error"), detail)
+        return out
+    got = out.value.value[0]
+    ctx.check(got.isBoolean() and got.value == exp, key + ":comparison-differs-from-numeric-order", detail)
+    if len(ops) == 1:
+        ctx.check(out.value.value[1].value == exp, key + ":function-form-differs-from-numeric-order", detail)
+    return out
 
 
 POOL = None
